@@ -2,7 +2,7 @@
    This file holds only the statement, the property theorems and their non-vacuity examples.
    The vocabulary (never_removes_protected, only_whole_entries, accounts, meets_bound, wf, the defect
    classifiers) is defined in Model/C14.v next to the model of dirCache.clean. *)
-From PlzV Require Import Base.Harness Gen.CacheNames Model.C14 Proof.C14 Proof.C14_Interleave.
+From PlzV Require Import Base.Harness Gen.CacheNames Model.C14 Proof.C14 Proof.C14_Interleave Proof.C14_Store.
 From Coq Require Import Permutation.
 
 (* For every cache content (any listing of a directory tree: entry counts, sizes, access times,
@@ -149,3 +149,63 @@ Example C14_interleaved_nonvacuous :
         [s "cache"; s "pkg"; s "lib"; k_key3]; [s "cache"; s "pkg"; s "lib"; k_key3; s "out.a"]]
   /\ length (cs_live (run false 0 (start isort w_race) [LIter; LIter; LIter; w_race_mark])) = 3%nat.
 Proof. exact w_race_ok. Qed.
+
+(* ---- an entry the process is storing while clean runs ------------------------------------------------
+
+   Store writes an entry file by file into the temporary directory <key>= and renames it into place;
+   clean may walk the cache and evict at any point of that.  Model: `prun`, labels PStore p files (the
+   process calls Store), PStoreStep (the Store in progress executes its next statement - the statement
+   lists of Store and storeFiles are regenerated from dir_cache.go: Gen.CacheNames.store_body,
+   store_files_body), PMark (Retrieve), PWalk (clean walks, tests the high water mark, sorts), PIter (one
+   loop iteration).  `ps_owned` is a ghost: the files Stores of this process have written and the process
+   has not itself removed or replaced since, at their present place (under <key>= before the rename, under
+   <key> after it).
+
+   For every uncompressed cache that is a directory tree, every list of labels (any number of Stores one
+   after the other with any outputs, any number of clean passes, any interleaving), all water marks and
+   every order of the queue, provided no directory above an entry used by the process is named like an
+   entry (the known defect class KeyShapedAncestor): every such file is in the cache directory.  So clean
+   never removes a file of an entry that is being stored, nor of one that has been stored. *)
+Theorem C14_store_in_progress :
+  forall sorter : list entry -> list entry, (forall l, Permutation (sorter l) l) ->
+  forall (st : state) (high low : N) (ls : list plabel),
+  dirs_present (st_items st) = true ->
+  (forall m, In m (st_calls st) -> entry_path false (fst m) = true /\ clean_names (fst m) = true) ->
+  (forall p, In p (plabel_paths ls) -> entry_path false p = true /\ clean_names p = true) ->
+  let x := prun store_ops sorter false high low (pinit st) ls in
+  forall o, In o (ps_owned x) -> has_path (cs_live (ps_c x)) o = true.
+Proof. exact store_in_progress_whole. Qed.
+Print Assumptions C14_store_in_progress.
+
+(* The Store the theorem is about is the one in the source (fails when Store or storeFiles change; the
+   proof of the theorem uses that the first statement of Store marks the entry). *)
+Example C14_store_skeleton :
+  store_body = [StMarkEarly; StRemoveOld; StStoreFiles; StRenameIntoPlace]
+  /\ store_files_body = [SfStoreEach; SfMarkTotal]
+  /\ (forall files, exists sz r, store_ops files = OMark sz :: r).
+Proof. exact (conj store_body_is (conj store_files_body_is store_ops_head)). Qed.
+
+(* Non-vacuity, and why the early markDir is needed: three old entries, everything is to go; the process
+   stores a new entry of two files and clean walks and evicts after the first file is in place.  The entry
+   comes out whole and the three old entries go.  The same schedule with a Store that marks its entry only
+   after writing the files (storeFiles' markDir alone) loses the first file: clean takes the temporary
+   directory for an old entry. *)
+Example C14_store_nonvacuous :
+  dirs_present (st_items w_race) = true
+  /\ (entry_path false w_store_p = true /\ clean_names w_store_p = true)
+  /\ plabel_paths w_store_run = [w_store_p]
+  /\ (let x := prun store_ops isort false 1 0 (pinit w_race) w_store_run in
+      ps_store x = Some (mkSP w_store_p [])
+      /\ ps_owned x = [w_store_p ++ [s "b.o"]; w_store_p ++ [s "out.a"]]
+      /\ map i_path (cs_live (ps_c x)) =
+           [[s "cache"]; [s "cache"; s "pkg"]; [s "cache"; s "pkg"; s "lib"];
+            w_store_p; w_store_p ++ [s "out.a"]; w_store_p ++ [s "b.o"]]
+      /\ length (cs_removed (ps_c x)) = 3%nat)
+  /\ (let x := prun store_ops_late_mark isort false 1 0 (pinit w_race) w_store_run_late in
+      ps_store x = Some (mkSP w_store_p [])
+      /\ ps_owned x = [w_store_p ++ [s "b.o"]; w_store_p ++ [s "out.a"]]
+      /\ map i_path (cs_live (ps_c x)) =
+           [[s "cache"]; [s "cache"; s "pkg"]; [s "cache"; s "pkg"; s "lib"];
+            w_store_p; w_store_p ++ [s "b.o"]]
+      /\ has_path (cs_live (ps_c x)) (w_store_p ++ [s "out.a"]) = false).
+Proof. exact w_store_ok. Qed.
